@@ -154,6 +154,55 @@ def overdrive_patterns(width: int, storage_bits: int, rng) -> List[int]:
     return [p for p in pats if p & ~low & full]
 
 
+def add_special_shapes(root: File, rng) -> None:
+    """Shapes at the decision points of the C runtime's array code: the batch-copy path is chosen by the ELEMENT's bit size
+    and type flag (through aliases), so rows/elements whose total or element size is exactly 8/16/32/64 bits - with
+    sub-byte, signed, enum, alias and extensible variants - sit right on the predicate."""
+    from vlib.model import Alias, Enum, Field
+    from vlib.gen import pick_base
+    tag = "".join(rng.choice("abcdefghijklmnopqrstuvwxyz") for _ in range(4)).capitalize()
+    m = Message("Shape" + tag)
+    n = 0
+
+    def field(t):
+        nonlocal n
+        n += 1
+        m.add(Field(f"s{'abcdefghijklmnopqrstuvwxyz'[n]}", t, n))
+
+    if rng.random() < 0.6:
+        field(Base("uint", rng.randint(1, 7)))  # leave byte alignment
+    for _ in range(rng.randint(2, 4)):
+        k = rng.randrange(7)
+        w = rng.choice([1, 2, 4, 8, 16])
+        tot = rng.choice([t for t in (8, 16, 32, 64) if t >= 2 * w])
+        kind = rng.choice(["uint", "int"]) if w > 1 else rng.choice(["uint", "bool"])
+        el = Base("bool") if kind == "bool" else Base(kind, w)
+        if k <= 2:    # 2-D: rows of exactly 8/16/32/64 bits made of smaller elements
+            row = root.add(Alias(f"Row{tag}{n}", Arr(el, tot // w, ext=(k == 2 and root_has_ext(root)))))
+            field(Arr(Ref(row), rng.choice([1, 2, 3])))
+        elif k == 3:  # array of alias of a standard-width integer (alias look-ahead flag)
+            al = root.add(Alias(f"Std{tag}{n}", Base(rng.choice(["uint", "int"]), rng.choice([8, 16, 32, 64]))))
+            field(Arr(Ref(al), rng.choice([1, 2, 5])))
+        elif k == 4:  # array of enums of standard width
+            ew = rng.choice([8, 16, 32, 64])
+            e = root.add(Enum(f"Std{tag}E{n}", ew, [(f"STD_{tag.upper()}_{n}_A", 0), (f"STD_{tag.upper()}_{n}_B", (1 << ew) - 1), (f"STD_{tag.upper()}_{n}_C", 1 << (ew - 1))]))
+            field(Arr(Ref(e), rng.choice([2, 3])))
+        elif k == 5:  # array of non-standard signed ints next to a standard one
+            field(Arr(Base("int", rng.choice([7, 9, 15, 17, 31, 33, 63])), rng.choice([2, 3])))
+            field(Arr(Base("int", rng.choice([8, 16, 32, 64])), rng.choice([2, 3])))
+        else:         # alias of a row used directly and as array element
+            row = root.add(Alias(f"Mix{tag}{n}", Arr(el, tot // w)))
+            field(Ref(row))
+            field(Arr(Ref(row), 2))
+        field(Base("uint", rng.choice([1, 3, 5])))
+    root.add(m)
+
+
+def root_has_ext(root: File) -> bool:
+    from vlib.model import is_extensible_anywhere
+    return is_extensible_anywhere(root)
+
+
 def run_std_cases(ctx: Ctx, n_cases: int, n_values: int, judge: Dict[str, bool]) -> None:
     """judge keys: wire (C03), bounds+contain+const (C07), json (C16)."""
     res = ctx.res
@@ -168,6 +217,9 @@ def run_std_cases(ctx: Ctx, n_cases: int, n_values: int, judge: Dict[str, bool])
             rng = __import__("random").Random(f"{ctx.replay['seed']}:{ctx.prop}:{ctx.replay['witness']['shard']}:case:{case_id}")
         cfg = cfg_for_case(rng, case_id)
         root = gen.gen_schema(rng, cfg)
+        if case_id % 3 == 1:
+            add_special_shapes(root, rng)
+            res.count("cases_with_special_array_shapes")
         d = ctx.casedir(case_id)
         wit: Dict[str, Any] = {"case": case_id, "shard": ctx.shard}
         mods = None
@@ -415,6 +467,8 @@ def run_opt_cases(ctx: Ctx, n_cases: int, n_random: int, judge: Dict[str, bool],
         cfg.msg_bits = min(cfg.msg_bits, 500 if ctx.quick else 1500)
         cfg.big_caps = False
         root = gen.gen_schema(rng, cfg)
+        if case_id % 3 == 1:
+            add_special_shapes(root, rng)
         top = ctx.casedir(f"o{case_id}")
         wit: Dict[str, Any] = {"case": case_id, "shard": ctx.shard}
         try:
